@@ -243,10 +243,11 @@ func (w *World) NewNode(name, addr string, featureSet model.NetworkManagementFea
 }
 
 // Connect registers peer (by name / ski) with the node and returns the inbound connection.
-// The stack immediately writes its detailed-discovery read to the new writer.
+// The stack immediately writes its detailed-discovery read to the new writer, so the
+// connection object is handed to bind (if not nil) before SetupRemoteDevice is called.
 //
 //go:norace
-func (n *Node) Connect(peerName string, onWrite func(s *Sent)) *Conn {
+func (n *Node) Connect(peerName string, onWrite func(s *Sent), bind func(c *Conn)) *Conn {
 	ski := "ski-" + peerName + "-at-" + n.Name
 	c := n.Conns[peerName]
 	if c == nil {
@@ -260,6 +261,9 @@ func (n *Node) Connect(peerName string, onWrite func(s *Sent)) *Conn {
 		c.Queue = nil
 	}
 	c.OnWrite = onWrite
+	if bind != nil {
+		bind(c)
+	}
 	n.W.Logf("connect %s gen=%d", c.Name, c.Gen)
 	c.Reader = n.Dev.SetupRemoteDevice(ski, &connWriter{c: c, gen: c.Gen})
 	return c
